@@ -393,6 +393,9 @@ func runBundle(c *vlib.Ctx) error {
 	var layouts []*bLayout
 	byKey := map[string]*bLayout{}
 	for _, b := range c.ReadBehaviours() {
+		if _, ok := b["inbin"]; !ok {
+			continue // behaviours of another model (AgentDial)
+		}
 		var in bIn
 		vlib.Decode(b, &in)
 		in.Goos, in.Goarch = splitPlatform(in.Q)
@@ -466,6 +469,8 @@ func runBundle(c *vlib.Ctx) error {
 			}
 		}
 	}
+	// growth: the dial/install machine, whose install step extracts from a bundle
+	runDialCases(c, pickDialScripts(c, argInt(c, "dial", 20), nil))
 	c.SetExtra("layouts_from_model", nmodel)
 	c.SetExtra("layouts_random", nrand)
 	c.SetExhaustive(true)
@@ -474,6 +479,10 @@ func runBundle(c *vlib.Ctx) error {
 
 func replayBundle(c *vlib.Ctx) error {
 	doc := c.LoadReplay()
+	if b, ok := doc["begin"].(map[string]any); ok && b["ev"] == "Dial" {
+		replayDial(c, doc["begin"])
+		return nil
+	}
 	var rec struct {
 		Src string `json:"src"`
 		In  bIn    `json:"in"`
